@@ -95,6 +95,83 @@ class IdDomain(TagDomain):
     return super().ext_call(dotted, args, kwargs, node, st, eng)
 
 
+class IdDomain2(IdDomain):
+  """value-identity tracking through the validators."""
+
+  def __init__(self):
+    super().__init__()
+    self.sinks = []     # (what, origin, site)
+
+  def ext_call(self, dotted, args, kwargs, node, st, eng):
+    if dotted == canon('sklearn.utils.validation.check_X_y') and \
+            len(args) >= 2:
+      self.sinks.append(('check_X_y', args[0].origin, self.site(node)))
+      return V(EMPTY, elts=(V(EMPTY, origin=('idlike', args[0].origin),
+                              ty='ndarray'),
+                            V(EMPTY, origin=('idlike', args[1].origin),
+                              ty='ndarray')))
+    if dotted == canon('sklearn.utils.check_array') and args:
+      self.sinks.append(('check_array', args[0].origin, self.site(node)))
+    return super().ext_call(dotted, args, kwargs, node, st, eng)
+
+  def summary(self, target, args, kwargs, node, st):
+    if target.key in ('_util.preprocess_tuples', '_util.preprocess_points'):
+      self.sinks.append((target.name, args[0].origin, self.site(node)))
+      return V(EMPTY, origin=('pre', args[0].origin), ty='ndarray')
+    return None
+
+
+def _chain_ok(o, allow_pre=True):
+  P = ('param', 'input_data')
+  while isinstance(o, tuple) and o and o[0] in ('idlike', 'pre'):
+    if o[0] == 'pre' and not allow_pre:
+      return False
+    o = o[1]
+  return o == P
+
+
+def rule_data_unchanged(repo, rep):
+  R = 'R-FLOW:validators-pass-data-unchanged'
+  rep.rule(R, 'inside check_input the value handed to the preprocessor '
+           'helpers, to the strict check_array and finally returned is the '
+           'caller\'s input itself (through check_array / check_X_y '
+           'conversions and the preprocessor only): no reshaping, slicing '
+           'or reordering of the data before the ndim dispatch')
+  f = repo.get_func('_util.check_input')
+  for toi in ('classic', 'tuples'):
+    for with_y in (False, True):
+      dom = IdDomain2()
+      eng = Engine(repo, dom)
+      args = {'input_data': V(EMPTY, origin=('param', 'input_data')),
+              'type_of_inputs': V(EMPTY, c=frozenset([toi]), ty='str')}
+      if with_y:
+        args['y'] = V(EMPTY, origin=('param', 'y'))
+      else:
+        args['y'] = V(EMPTY, c=frozenset([None]), ty='none')
+      flow = eng.run(f, args=args)
+      key = '_util.check_input:%s:y=%s' % (toi, with_y)
+      bad = None
+      for (what, o, s) in dom.sinks:
+        if not _chain_ok(o, allow_pre=(what == 'check_array')):
+          bad = (s, 'the value passed to %s is not the caller\'s input '
+                 '(derived value; provenance %s)' % (what, o))
+          break
+      for (v, st, node) in flow.returns:
+        x = v.elts[0] if (with_y and v.elts is not None) else v
+        if not _chain_ok(x.origin):
+          bad = bad or (site(f, node), 'the returned data is not the '
+                        'validated input itself (provenance %s)'
+                        % (x.origin,))
+      if not flow.returns:
+        bad = (site(f), 'no normal return')
+      if bad:
+        rep.refuted(R, key, bad[0], bad[1])
+      else:
+        rep.derived(R, key, site(f),
+                    sample=dict(rule=R, config=key,
+                                sinks=[w for (w, o, s) in dom.sinks]))
+
+
 def rule_check_preprocessor(repo, rep):
   R = 'R-TABLE:check-preprocessor'
   rep.rule(R, '_check_preprocessor maps an array-like preprocessor to '
@@ -332,6 +409,7 @@ def check(repo, rep, tier):
   c06.rule_taint(repo, rep, labels=False)
   rule_routing(repo, rep)
   rule_check_preprocessor(repo, rep)
+  rule_data_unchanged(repo, rep)
   rule_only_for_indicators(repo, rep)
   rule_slot_order(repo, rep)
   rule_wrapped(repo, rep)
